@@ -66,6 +66,7 @@ class BusSession:
         self.inbox = {}       # label -> list of Obs since last take()
         self.eof = {}         # label -> bool
         self.junk = []
+        self.rawbuf = {}      # label -> bytes received while the client is in raw (handshake) mode
         self.hits = {}
         self._obs_log = hashlib.sha1()
 
@@ -84,6 +85,8 @@ class BusSession:
                     lab = l
             if lab is None:
                 lab = self._closed_label(c)
+            if c in self.bus.rawmode and rv.raw:
+                self.rawbuf[lab] = self.rawbuf.get(lab, b'') + rv.raw
             for m, raw in rv.msgs:
                 self.inbox.setdefault(lab, []).append(Obs(m))
             if rv.eof:
